@@ -18,7 +18,7 @@ class C15(PropBase):
     id = "C15"
     lean_modules = ["SqModel.Props.C15"]
     rule = ("table states of 18 aircraft with ties, blanks, negative rates and positions less than a degree / a kilometre / a hundred metres apart; "
-            "all -o strings of length <= 2 over the key alphabet plus junk letters (quick: sampled); row sequence parsed from the "
+            "all -o strings of length <= 2 over the key alphabet plus junk letters (quick: every ordered pair of the property's key letters, the rest sampled); row sequence parsed from the "
             "real Planes::print output: must be a permutation of the table's key set and monotone in the last recognised key among "
             "rows whose key is known; ascending addresses when no key is recognised; compared with the model's order. Non-trivial "
             "= at least 3 rows with distinct known keys; distinct by (table, -o string).")
@@ -49,7 +49,9 @@ class C15(PropBase):
         alpha = "saAvVNSWEdDcCxz"
         orders = [""] + list(alpha) + ["".join(p) for p in itertools.product(alpha, repeat=2)]
         if tier == "quick":
-            orders = [""] + list(alpha) + rng.sample(orders[16:], 40)
+            # every ordered pair of property key letters (a later letter must not inherit anything from an earlier one), some with junk
+            keys = "saAvVNSWEdDc"
+            orders = [""] + list(alpha) + ["".join(p) for p in itertools.product(keys, repeat=2)] + rng.sample(orders[16:], 20) + ["sAs", "DvN", "AcS"]
         # every letter and digit that is not a key, alone and in groups (in particular the other case of each key letter)
         import string
         others = [c for c in string.ascii_letters + string.digits if c not in "saAvVNSWEdDcC"]
